@@ -17,6 +17,7 @@ from .source import Source, REPO
 
 VERIF = os.path.dirname(os.path.dirname(os.path.abspath(__file__)))
 NATIVE_PY = os.environ.get("PYVC_NATIVE_PY", "/venv/bin/python")
+OUT = os.environ.get("PYVC_OUT", VERIF)      # self-test runs on scratch trees write their evidence/replays elsewhere
 
 ASSUMPTIONS = {
     "A-REAL": "finite float arithmetic is treated as exact real arithmetic; zeros unsigned; no overflow/underflow (special values NaN/+-inf are exact)",
@@ -204,7 +205,7 @@ class Run:
         kf = s.known_findings()
         kf_open = [f for f in kf if f.get("status") == "known"]
         violations, undecided, faults, kf_hit = [], [], [], []
-        os.makedirs(os.path.join(VERIF, "replays"), exist_ok=True)
+        os.makedirs(os.path.join(OUT, "replays"), exist_ok=True)
         for o in s.obls:
             if o.verdict in ("proved",):
                 continue
@@ -282,7 +283,7 @@ class Run:
 
     def _write_replay(s, o, status, rec):
         safe = o.name.replace("/", "_").replace(" ", "_").replace("[", "_").replace("]", "_")[:150]
-        path = os.path.join(VERIF, "replays", f"{safe}.json")
+        path = os.path.join(OUT, "replays", f"{safe}.json")
         doc = {"property": s.pid, "obligation": o.name, "function": o.fn, "status": status, "backend": o.backend,
                "solver_output": o.solver_output, "model": o.model, "replay": rec, "detail": o.detail,
                "replay_spec": o.meta.get("replay"), "repo": s.repo,
@@ -333,8 +334,8 @@ class Run:
             "assumptions": [f"{a}: {ASSUMPTIONS.get(a, a)}" for a in sorted(s.assumed)] + [f"solvers: {ASSUMPTIONS['solvers']}"],
             "wall_s": round(time.time() - s.t0, 2), "violations": len(violations),
         }
-        os.makedirs(os.path.join(VERIF, "evidence"), exist_ok=True)
-        with open(os.path.join(VERIF, "evidence", f"{s.pid}.json"), "w") as fh:
+        os.makedirs(os.path.join(OUT, "evidence"), exist_ok=True)
+        with open(os.path.join(OUT, "evidence", f"{s.pid}.json"), "w") as fh:
             json.dump(ev, fh, indent=1, default=str)
 
 
